@@ -127,6 +127,11 @@ func SetHook(n *centrifuge.Node, f func(point string, c *centrifuge.Client, ch s
 	hookOnce.Do(func() {
 		centrifuge.VerifSetHook(func(point string, node *centrifuge.Node, c *centrifuge.Client, ch string) {
 			if node == nil {
+				// points without a node (the connection writer): one process-wide handler,
+				// set per case (cases of one process run one after another)
+				if g := nodelessHook.Load(); g != nil {
+					(*g)(point)
+				}
 				return
 			}
 			if f, ok := hookMap.Load(node); ok {
@@ -137,7 +142,17 @@ func SetHook(n *centrifuge.Node, f func(point string, c *centrifuge.Client, ch s
 	hookMap.Store(n, f)
 }
 
-func clearHook(n *centrifuge.Node) { hookMap.Delete(n) }
+func clearHook(n *centrifuge.Node) { hookMap.Delete(n); nodelessHook.Store(nil) }
+
+var nodelessHook atomic.Pointer[func(point string)]
+
+// SetNodelessHook installs the handler for yield points that carry neither a node nor
+// a client ("writer.afterDrain"). It is removed when a world shuts down. SetHook must
+// have been called in the process (it installs the dispatcher).
+func SetNodelessHook(n *centrifuge.Node, f func(point string)) {
+	SetHook(n, func(string, *centrifuge.Client, string) {})
+	nodelessHook.Store(&f)
+}
 
 // SpinUntil busy-yields (never sleeps) until cond() holds or maxYields yields
 // were made. For use at yield points that lie inside a lock-protected window.
